@@ -159,7 +159,7 @@ def main(tier, seed):
                 for strat in (["rr", "rw"] if q else ["rr", "rw", "rw", "rw", "rw", "rw"]):
                     cases.append({"seed": seed * 5003 + len(cases), "k": k, "order": list(order), "policy": policy, "strategy": strat,
                                   "p": rng.choice([0.05, 0.2, 0.5])})
-    for i in range(60 if q else 4000):
+    for i in range(60 if q else 24000):
         k = rng.choice([2, 3, 5, 6])
         order = list(range(1, k + 1))
         rng.shuffle(order)
